@@ -181,6 +181,9 @@ class Factoring:
                     body_probe = False
                 body = copy.deepcopy(val)
                 call = Opaque({name: None})
+                call.nested = rng.random() < 0.3
+                if call.nested:
+                    self.forms.append("param:arguments-indented-under-the-call-key")
                 for (p, s), f in zip(chosen, formals):
                     _set(body, p, f)
                     call[f] = s
@@ -200,6 +203,7 @@ class Factoring:
                     idx = path[-1]
                     same = rng.random() < 0.3
                     call2 = Opaque({name: None})
+                    call2.nested = rng.random() < 0.3
                     inst = copy.deepcopy(body)
                     for (p, s), f in zip(chosen, formals):
                         v = call[f] if same else rng.choice(self.decoys + [s])
@@ -215,7 +219,11 @@ class Factoring:
 
 
 def to_plain(node):
-    """Opaque -> dict for YAML dumping."""
+    """Opaque -> dict for YAML dumping. A call marked `nested` is written with its arguments indented under the call key
+    (`"@m": {f: v}`) instead of beside it (`"@m":` / `f: v`): both spellings bind the same arguments."""
+    if isinstance(node, Opaque) and getattr(node, "nested", False):
+        name = next(iter(node))
+        return {name: {k: to_plain(v) for k, v in node.items() if k != name}}
     if isinstance(node, dict):
         return {k: to_plain(v) for k, v in node.items()}
     if isinstance(node, list):
